@@ -13,6 +13,7 @@ Actions (plain and generator handlers):
   ['raise'] / ['raise','base'] raise Boom(Exception) / BoomBase(BaseException)
   ['ret', tag]                return a unique non-None value (ends the body)
   ['retnone']                 return None
+  ['retlit', v] / ['yieldlit', v]  return / yield the literal v (falsy but non-None values: 0, False, '', 0.0)
   ['stopmgr', code]           self.stop(code)          (C08)
   ['sysexit', code]           raise SystemExit(code)   (C08)
   ['kbint']                   raise KeyboardInterrupt  (C08)
@@ -24,7 +25,8 @@ generator handlers only:
   ['waitname', evspec, opts]  self.fire(event); r = yield self.wait(event.name, **opts)
   ['sleep', t]                yield sleep(t)
 evspec: {'name': str, 'prio': number (default 0), 'flags': {'success','failure','complete','notify': bool},
-         'cancel': bool (cancel right after firing), 'success_channels'/'complete_channels': [...]}
+         'cancel': bool (cancel right after firing), 'success_channels'/'complete_channels': [...],
+         'channels': [...] (fire to these channels; handlers may carry 'channel')}
 """
 
 
@@ -99,6 +101,8 @@ class World:
     def _probe(self, event, args, kwargs):
         uid = getattr(event, '_vuid', None)
         if uid is not None and not self.events[uid].get('system'):
+            if self.log and self.log[-1] == ('D', uid):
+                return  # an event fired to several channels reaches a '*' handler once per channel: same dispatch
             self.events[uid]['dispatched'] += 1
             self.L('D', uid)
             return
@@ -150,7 +154,7 @@ class World:
             kw = {}
             if spec.get('prio', 0) != 0 or spec.get('explicit_prio'):
                 kw['priority'] = spec.get('prio', 0)
-            v = (target or self.app).fire(e, **kw)
+            v = (target or self.app).fire(e, *spec.get('channels', ()), **kw)
         except BaseException as ex:
             self.L('APIERR', 'fire', repr(ex), parent, by)
             raise
@@ -213,6 +217,10 @@ class World:
             return ('ret', tag)
         elif k == 'retnone':
             return ('ret', None)
+        elif k == 'retlit':
+            # a literal, possibly falsy (0, False, '', 0.0) but non-None result
+            self.L('P', uid, hid, act[1])
+            return ('retlit', act[1])
         elif k == 'stopmgr':
             self.L('STOPCALL', uid, hid, act[1])
             comp.stop(act[1]) if act[1] is not None else comp.stop()
@@ -292,6 +300,12 @@ class World:
                     yield tag
                     step += 1
                     self.L('GR', uid, hid, step)
+                elif k == 'yieldlit':
+                    self.L('P', uid, hid, act[1])
+                    self.L('GY', uid, hid, step)
+                    yield act[1]
+                    step += 1
+                    self.L('GR', uid, hid, step)
                 elif k in ('call', 'wait', 'waitname'):
                     opts = dict(act[2]) if len(act) > 2 and act[2] else {}
                     if k == 'call':
@@ -326,7 +340,7 @@ class World:
                     if r is not None:
                         if r[0] == 'unknown':
                             raise ValueError('unknown action %r' % (act,))
-                        if r[1] is not None:
+                        if r[1] is not None or r[0] == 'retlit':
                             # a generator's non-None result is its last yield
                             self.L('GY', uid, hid, step)
                             yield r[1]
